@@ -287,6 +287,11 @@ def when_all(ctx):
          'for every number of inputs: with zero inputs all inputs have succeeded, and no rawlink callback exists that could resolve the result later')
 
 
+def params_of_lambda(lam):
+  a = lam.args
+  return [x.arg for x in a.posonlyargs + a.args + a.kwonlyargs] + ([a.vararg.arg] if a.vararg else []) + ([a.kwarg.arg] if a.kwarg else [])
+
+
 def continue_with(ctx):
   prog = ctx.prog
   f = prog.func(A, 'AsyncResult.ContinueWith')
@@ -315,6 +320,7 @@ def continue_with(ctx):
     return
   run = outer.nested.get('run') or (list(outer.nested.values())[0] if outer.nested else None)
   cwname, fnname = cw, f.params[1]
+  started = None
   if run is None:
     # the continuation body may live in a method: cw_ar._RunContinuation(fn, _ar)
     cands = [c for c in ast.walk(outer.node) if isinstance(c, ast.Call) and isinstance(c.func, ast.Attribute) and U(c.func.value) == cw]
@@ -328,6 +334,25 @@ def continue_with(ctx):
       return
     run = tgt[0]
     cwname, fnname = 'self', run.params[1]
+
+  else:
+    # run() may hand the call to a method of the result as a thunk: cw_ar._SafeLinkHelper(lambda: fn(_ar))
+    body = [s_ for s_ in run.node.body if not (isinstance(s_, ast.Expr) and isinstance(s_.value, ast.Constant))]
+    c = body[0].value if len(body) == 1 and isinstance(body[0], ast.Expr) else None
+    if (isinstance(c, ast.Call) and isinstance(c.func, ast.Attribute) and U(c.func.value) == cw and len(c.args) == 1 and not c.keywords
+        and isinstance(c.args[0], ast.Lambda) and not params_of_lambda(c.args[0]) and f.cls is not None and f.cls.methods.get(c.func.attr) is not None):
+      m = f.cls.methods[c.func.attr]
+      thunk = c.args[0].body
+      good = (isinstance(thunk, ast.Call) and isinstance(thunk.func, ast.Name) and thunk.func.id == f.params[1] and len(thunk.args) == 1 and not thunk.keywords
+              and U(thunk.args[0]) == outer.params[0])
+      ctx.ob('C17.R4', run, 'the thunk handed to %s is fn(<completed result>)' % m.name, good, 'thunk is %s' % U(thunk), why)
+      if len(m.params) == 2:
+        started = run
+        run = m
+        cwname, fnname = 'self', m.params[1]
+
+  if started is None:
+    started = run
 
   def mr(call, armed):
     if isinstance(call.func, ast.Name) and call.func.id == fnname:
@@ -350,8 +375,8 @@ def continue_with(ctx):
   ctx.floor('C17.R4', 'continuation paths', n, 2)
   # outer: run() on hub or spawned, exactly once
   for ev, ex in enum_paths(ctx, outer):
-    direct = [e for e in ev if e.kind == 'call' and ((isinstance(e.node.func, ast.Name) and e.node.func.id == run.name) or (isinstance(e.node.func, ast.Attribute) and e.node.func.attr == run.name and U(e.node.func.value) == cw))]
-    spawned = [e for e in ev if e.kind == 'call' and call_name(e.node) == 'gevent.spawn' and e.node.args and U(e.node.args[0]) in (run.name, '%s.%s' % (cw, run.name))]
+    direct = [e for e in ev if e.kind == 'call' and ((isinstance(e.node.func, ast.Name) and e.node.func.id == started.name) or (isinstance(e.node.func, ast.Attribute) and e.node.func.attr == started.name and U(e.node.func.value) == cw))]
+    spawned = [e for e in ev if e.kind == 'call' and call_name(e.node) == 'gevent.spawn' and e.node.args and U(e.node.args[0]) in (started.name, '%s.%s' % (cw, started.name))]
     ctx.ob('C17.R4', outer, 'continuation runs exactly once per completion', len(direct) + len(spawned) == 1,
            'run() started %d times on a path' % (len(direct) + len(spawned)), why)
   # Map
